@@ -77,16 +77,12 @@ uint64_t arc_num_points(double angle, double radius, double tolerance) {
     return (uint64_t)(0.5 + 0.5 * fabs(angle) / a);
 }
 
-static double modulo(double x, double y) {
-    double m = fmod(x, y);
-    return m < 0 ? m + y : m;
-}
-
 double elliptical_angle_transform(double angle, double radius_x, double radius_y) {
     if (angle == 0 || angle == M_PI || radius_x == radius_y) return angle;
-    double frac = angle - (modulo(angle + M_PI, 2 * M_PI) - M_PI);
-    double ell_angle = frac + atan2(radius_x * sin(angle), radius_y * cos(angle));
-    return ell_angle;
+    // Continuous form of atan2(radius_x * sin(angle), radius_y * cos(angle)) + full turns
+    const double s = sin(angle);
+    const double c = cos(angle);
+    return angle + atan2((radius_x - radius_y) * s * c, radius_y * c * c + radius_x * s * s);
 }
 
 double distance_to_line_sq(const Vec2 p, const Vec2 p1, const Vec2 p2) {
